@@ -445,6 +445,9 @@ func work(w *mon.W) {
 				ck.SetPath("/" + legal(rs(r, 4, alphaR)))
 			} else if r.Chance(4) {
 				ck.SetPath(r.Str("/..", "/a/..", "/a/../..", "x", "/./"))
+			} else if r.Chance(3) {
+				// a path with percent-escapes (a valid path-value: no ';', no control byte)
+				ck.SetPath("/" + legal(rs(r, 3, alphaR)) + r.Str("%3B%20domain=evil.example", "%3B%20HttpOnly", "/a%3Bb", "%20x", "%25", "%2F..%2F"))
 			}
 			if r.Bool() {
 				ck.SetMaxAge(1 + r.Intn(100000))
